@@ -74,6 +74,7 @@ class Profile:
     p_wide: int = 3                     # % of cases whose top scheduler is wide (12..130 jobs)
     p_watch: int = 8                    # a Watch object is passed (shared by the whole tree)
     p_prelude: int = 8                  # graph queried and re-wired before the run
+    p_ret: int = 12                     # the body returns None / 0 / False / '' / a Future
     p_big: int = 8                      # % of schedulers that may have up to big_members
     big_members: int = 9
     force_nested: int = 0               # % of cases whose top has a nested scheduler for sure
@@ -100,6 +101,9 @@ def _draw_job(draw, prof, wild):
         extra['label'] = draw(st.sampled_from(ODD_LABELS))
     if chance(draw, prof.p_exc):
         extra['exc'] = draw(st.sampled_from(EXC_NAMES))
+    if chance(draw, prof.p_ret):
+        extra['ret'] = draw(st.sampled_from(['none', 'zero', 'false', 'empty', 'future-done',
+                                             'future-pending']))
     return dict(
         **extra,
         kind='job', id=None,
